@@ -166,3 +166,8 @@ pub broadcast axiom fn ax_str_string_eq_spec<'a>()
 pub broadcast axiom fn ax_str_string_eq_def<'a>(a: &'a str, b: String)
     ensures #[trigger] <&'a str as PartialEqSpec<String>>::eq_spec(&a, &b) == (a@ == b@);
 pub broadcast group string_eq2 { ax_str_string_eq_spec, ax_str_string_eq_def }
+
+// String += &str (std AddAssign): always allowed; the resulting text is left unspecified
+use vstd::std_specs::ops::*;
+pub broadcast axiom fn ax_string_add_assign_req<'a>(s: String, rhs: &'a str)
+    ensures #[trigger] <String as AddAssignSpec<&'a str>>::add_assign_req(&s, rhs);
